@@ -44,10 +44,28 @@ Definition model_tree (s : step) : option tnode :=
   parser_of tnode tc_deserialize_nodict tree_via_trie tree_via_lines tree_via_groups
     (Server.select_format (Server.q_get k_format (s_query s)) (s_ctype s)) (s_body s).
 
+(* time.Time keeps seconds since year 1 in an int64: Unix seconds beyond about +-2^63 wrap around (a 20-digit from/until).
+   The handler model computes on unbounded Z; such arguments are outside its domain and excluded from the status comparison
+   (the no-panic and nothing-changes checks still apply to them). *)
+Definition time_arg_in_range (now : Z) (v : bytes) : bool :=
+  match v with
+  | [] => true
+  | _ => match attime_parse now v with
+         | Some t => Z.abs (t / 1000000000) <? 2 ^ 62
+         | None => false
+         end
+  end.
+Definition times_in_range (s : step) : bool :=
+  time_arg_in_range (s_t0 s) (Server.q_get k_from (s_query s)) && time_arg_in_range (s_t0 s) (Server.q_get k_until (s_query s)).
+
 Definition outcome_code (o : outcome) : Z := match o with Status c => c | Panic _ => 0 end.
 
 (* ---- specification side ---- *)
 Definition build (rs : list (bytes * N)) : tnode := fold_left (fun t kv => t_insert (fst kv) (snd kv) t) rs t_empty.
+
+(* Go adds uint64 values modulo 2^64 (a negative count in a text body is accepted as its two's complement) *)
+Fixpoint t_mod64 (t : tnode) : tnode :=
+  match t with TNode n s tot ch => TNode n (s mod 2 ^ 64)%N (tot mod 2 ^ 64)%N (map t_mod64 ch) end.
 
 Definition otree (o : option tnode) : tnode := match o with Some t => t | None => t_empty end.
 Definition otree_eqb (a b : option tnode) : bool := t_eqb (otree a) (otree b).
@@ -77,7 +95,7 @@ Definition check_render_step (s : step) : verdict :=
     let m0 := outcome_code (render (s_query s) (s_t0 s) (s_t0 s)) in
     let m1 := outcome_code (render (s_query s) (s_t1 s) (s_t1 s)) in
     let m2 := outcome_code (render (s_query s) (s_t0 s) (s_t1 s)) in
-    if (m0 =? m1) && (m0 =? m2) then corr (st =? m0) "status code differs from Model/Server.v render" else Ok ].
+    if (m0 =? m1) && (m0 =? m2) && times_in_range s then corr (st =? m0) "status code differs from Model/Server.v render" else Ok ].
 
 Definition check_step (ws : list (bytes * Z * Z)) (s : step) : verdict :=
   if s_render s then check_render_step s else
@@ -94,11 +112,11 @@ Definition check_step (ws : list (bytes * Z * Z)) (s : step) : verdict :=
             spec (untouched_ok ws self (s_before s) (s_after s)) "an acknowledged ingest changed the answer for another series or window";
             if s_single_slot s then
               match s_records s with
-              | Some rs => spec (t_eqb (otree a) (t_merge (otree b) (build rs)))
+              | Some rs => spec (t_eqb (otree a) (t_mod64 (t_merge (otree b) (build rs))))
                                 "status 200 but the stored profile is not the whole body (answer <> earlier answer + all records)"
               | None =>
                   match model_tree s with
-                  | Some t => corr (t_eqb (otree a) (t_merge (otree b) t)) "stored profile differs from the body-parser model of the (mutated) body"
+                  | Some t => corr (t_eqb (otree a) (t_mod64 (t_merge (otree b) t))) "stored profile differs from the body-parser model of the (mutated) body"
                   | None => ModelDiffers "status 200 for a body the parser model rejects"
                   end
               end
@@ -111,7 +129,7 @@ Definition check_step (ws : list (bytes * Z * Z)) (s : step) : verdict :=
     (* status code against the handler model; the clock only matters through now-relative from/until and retention *)
     let m0 := outcome_code (model_status s (s_t0 s)) in
     let m1 := outcome_code (model_status s (s_t1 s)) in
-    if m0 =? m1 then corr (st =? m0) "status code differs from Model/Server.v ingest" else Ok ].
+    if (m0 =? m1) && times_in_range s then corr (st =? m0) "status code differs from Model/Server.v ingest" else Ok ].
 
 (* the harness dumps the answers before the first request and after every request; nothing happens between two
    requests, so the answers before request i+1 are the answers after request i (an empty s_before means exactly that) *)
